@@ -27,7 +27,7 @@ BOUND = {
 }
 CHUNK = 128
 
-MENU = ['fail', 'error', 'uxs', 'skip_dec', 'skip_cls', 'skip_setup',
+MENU = ['fail', 'error', 'fail@1', 'error@2', 'sub_skip', 'uxs', 'skip_dec', 'skip_cls', 'skip_setup',
         'skip_body', 'xfail', 'sub:1,0,1', 'sub:2,0,0', 'sub:1,1,0',
         'sub:0,0,2', 'setup_err', 'teardown_err', 'body+teardown',
         'fail+teardown', 'cleanup_err']
@@ -114,18 +114,20 @@ def run_case(case):
             if len(runs) % rep:
                 V('harness_iteration_split', 'layer %s ran %d times under --repeat %d' % (lay, len(runs), rep))
             per_layer_tests[(vpid, lay)] = k
-            f = e = s = 0
-            for tid in runs[:k]:
-                for kind, _ in ow.script_events(sv.tests[tid]):
-                    if kind == 'F':
-                        f += 1
-                    elif kind == 'E':
-                        e += 1
-                    else:
-                        s += 1
-            if vpid != 0:
-                skips_in_children += s * rep
-            for _ in range(rep):
+            for it in range(rep):
+                f = e = s = 0
+                for tid in runs[it * k:(it + 1) * k]:
+                    # every test runs once per iteration: the (it+1)-th
+                    # execution in this process
+                    for kind, _ in ow.script_events(sv.tests[tid], nth=it + 1):
+                        if kind == 'F':
+                            f += 1
+                        elif kind == 'E':
+                            e += 1
+                        else:
+                            s += 1
+                if vpid != 0:
+                    skips_in_children += s
                 want.append((k, f, e + bm, s))
         if got != want:
             V('layer_summary', 'process %s prints Ran lines %s, trace says %s' % (vpid, got, want))
